@@ -4,6 +4,7 @@ import (
 	"context"
 	"fmt"
 	"hash/fnv"
+	"encoding/json"
 	"os"
 	"path/filepath"
 	"sort"
@@ -485,6 +486,16 @@ func (s *Sim) startNode(ns *nodeState, dir string, join bool) {
 	n := len(s.nodes)
 	cfg := &config.Config{ShardNum: s.k.ShardNum, Databases: s.databases(), ChanBufferSize: 10, LogLevel: "panic", IsCluster: true,
 		NodeID: ns.id, RaftAddr: nodeURL(ns.id), PeerAddrs: s.peerAddrs(n), JoinCluster: join}
+	if s.databases() == 1 {
+		// the shipped way: the node's cluster settings come from a JSON file read by
+		// config.ParseConfigJson (which supports a single database in cluster mode,
+		// whatever the file says) over the defaults
+		if parsed := configThroughJSON(cfg); parsed != nil {
+			cfg = parsed
+		} else {
+			s.res.Harness = "harness: cannot write the cluster configuration file"
+		}
+	}
 	config.Configures = cfg
 	inc.vn = server.VerifStartCluster(inc.ctx, cfg)
 	// the WAL has been replayed (a node that cannot read its own files has
@@ -1479,4 +1490,28 @@ func (sr *seededReader) Read(p []byte) (int, error) {
 		p[i] = byte(sr.r.Uint64())
 	}
 	return len(p), nil
+}
+
+// configThroughJSON writes cfg as the JSON document a marshalled Config is (it
+// carries a "Databases" member, here one that asks for several) and reads it back
+// through the server's own config.ParseConfigJson.
+func configThroughJSON(cfg *config.Config) *config.Config {
+	doc := *cfg
+	doc.Databases = 4
+	b, err := json.Marshal(&doc)
+	if err != nil {
+		return nil
+	}
+	f, err := os.CreateTemp("", "verif-cluster-*.json")
+	if err != nil {
+		return nil
+	}
+	defer os.Remove(f.Name())
+	f.Write(b)
+	f.Close()
+	out := &config.Config{ShardNum: cfg.ShardNum, Databases: cfg.Databases, ChanBufferSize: cfg.ChanBufferSize, LogLevel: cfg.LogLevel}
+	if err := out.ParseConfigJson(f.Name()); err != nil {
+		return nil
+	}
+	return out
 }
